@@ -125,6 +125,18 @@ def check_matrix_cache(prog, ctx, rule):
         ctx.check(ok, rule, R.key_of(bd, "cache-hit#%d" % k), bd.loc(rd),
                   "a hit is read under the membership test of the same key and fills the same matrix entries as a fresh value",
                   "matrix-entry cache: " + why)
+        # the regulariser treats hits and misses alike: every statement of the iteration that involves lambda is reachable from the hit
+        # (the cached value is lambda-free, see above, so a lambda applied on the miss path only is missing on every hit)
+        loops_r = [l for l in rn.loops if isinstance(l, ast.For)] if rn is not None else []
+        if loops_r:
+            head = c.node_of(loops_r[-1])
+            lam_nodes = [n for n in c.nodes if n.kind == "stmt" and n.ast is not None and c.in_loop(n, loops_r[-1])
+                         and any(R.self_attr(x, "self") == "lambd" for x in ast.walk(n.ast))]
+            missing = [n for n in lam_nodes if n.idx not in c.reachable_after(rn, blocked=[head])]
+            ctx.check(not missing, rule, R.key_of(bd, "hit-regularised-like-miss#%d" % k), bd.loc(rd),
+                      "every use of lambda in the iteration (%d) is reached after a cache hit as well as after a miss" % len(lam_nodes),
+                      "matrix-entry cache: `%s` is executed for freshly computed entries only; a diagonal entry taken from the cache never "
+                      "receives lambda" % (src(missing[0].ast)[:70] if missing else ""))
 
 
 
